@@ -37,7 +37,7 @@ def lemma_formula(eng, reg, lm, env_override=None, for_use=False):
     st = sx.State()
     vs = []
     for p, ty in lm.params.items():
-        if ty.kind in ("arr", "list"):
+        if ty.kind in ("arr", "list", "set", "setlist", "pairset"):
             v = z3.Const("lm!%s!%s" % (lm.name, p), sx.arr_sort(ty.elem, ty.ndim))
             base = "lm:%s:%s" % (lm.name, p)
             st.heap[base] = sx.HeapObj(v, [z3.Int("lmlen!%s!%s!%d" % (lm.name, p, d)) for d in range(ty.ndim)],
